@@ -126,3 +126,9 @@ def replay(ctx, obj):
     f = obj.get("failure") or {}
     if f.get("input") is not None:
         print(ctx.impl(["compile\t%s\t0" % vlib.enc_text(f["input"])], stall=15))
+
+
+def still_fails(ctx, src):
+    if requested_work(src):
+        return False
+    return ctx.impl(["compile\t%s\t0" % vlib.enc_text(src)], stall=6)[0] in ("PANIC", "HANG", "ABORT")
